@@ -135,8 +135,56 @@ func (r *yieldRewriter) rewriteYieldFuncBody() {
 	// or to replace with co.Break() co.Continue() in monadic context
 	r.rewriteBreakContinues(following.block)
 
+	// every yield of this function has been turned into a Bind by now; one that
+	// is still there sits in a position the rewriter does not handle (if / switch
+	// initialiser, go statement, native range over an unsupported operand, ...)
+	// and would silently become a call of the no-op stub
+	r.assertNoYieldLeft(following.block)
+
 	returnCallStart := X.Return(r.CallStart(following.block))
 	r.funcBody.List = []ast.Stmt{returnCallStart}
+}
+
+func (r *yieldRewriter) assertNoYieldLeft(n ast.Node) {
+	// statements after a jump are dead code, which is emitted as it stands
+	// (or dropped): a yield there is never executed, so it loses nothing
+	list := func(stmts []ast.Stmt) {
+		for _, stmt := range stmts {
+			r.assertNoYieldLeft(stmt)
+			switch stmt.(type) {
+			case *ast.BranchStmt, *ast.ReturnStmt:
+				return
+			}
+		}
+	}
+	ast.Inspect(n, func(n ast.Node) bool {
+		if isNil(n) {
+			return false // e.g. the absent condition of a rewritten for: a typed nil
+		}
+		switch n := n.(type) {
+		case *ast.BlockStmt:
+			list(n.List)
+			return false
+		case *ast.CaseClause:
+			for _, x := range n.List {
+				r.assertNoYieldLeft(x)
+			}
+			list(n.Body)
+			return false
+		case *ast.CommClause:
+			if n.Comm != nil {
+				r.assertNoYieldLeft(n.Comm)
+			}
+			list(n.Body)
+			return false
+		case *ast.CallExpr:
+			callee := r.pkg.Callee(n)
+			left := callee != nil &&
+				(callee == r.rewriter.yieldFunc || callee == r.rewriter.yieldFromFunc)
+			r.assert(!left, n, "yield not supported here")
+		}
+		return true
+	})
 }
 
 func (r *yieldRewriter) rewriteStmts(
